@@ -5,7 +5,7 @@ import (
 	"github.com/6tail/lunar-go/calendar"
 )
 
-var c13Boundary = []int{1, 2, 6, 8, 9, 16, 23, 24, 236, 237, 240, 1582, 1583, 1900, 2000, 2020, 2023, 2024, 2033, 2034, 9997, 9998}
+var c13Boundary = []int{1, 2, 6, 8, 9, 15, 16, 18, 19, 23, 24, 236, 237, 240, 1582, 1583, 1900, 2000, 2020, 2023, 2024, 2033, 2034, 9997, 9998}
 
 func wuHouIndex(s string) int {
 	for i, v := range LunarUtil.WU_HOU {
